@@ -381,7 +381,7 @@ def sym_method(I, recv, name, args, kwargs):
             kz = M.key_of(I, args[0])
             M.drop_key_order(recv)
             if I.path.branch(z3.Select(recv.has, kz), note="dict.pop"):
-                val = wrap(recv.vty, z3.Select(recv.val, kz))
+                val = recv.vty.value if recv.vty.kind == "const" else wrap(recv.vty, z3.Select(recv.val, kz))
                 recv.has = z3.Store(recv.has, kz, z3.BoolVal(False))
                 if recv.size is not None:
                     recv.size = simp(recv.size - 1)
@@ -389,6 +389,11 @@ def sym_method(I, recv, name, args, kwargs):
             if len(args) > 1:
                 return args[1]
             I.raise_py(KeyError, args[0])
+        if name == "clear":
+            recv.has = z3.K(S.sort_of(recv.kty), z3.BoolVal(False))
+            recv.size = z3.IntVal(0)
+            M.drop_key_order(recv)
+            return None
         raise Unsupported(f"dict.{name} on a symbolic map")
     # ---- symbolic list / tuple
     if isinstance(recv, SSeq):
@@ -712,6 +717,10 @@ def m_list(I, args, kwargs):
     v = args[0]
     if isinstance(v, SSeq):
         return SSeq(v.arr, v.n, v.ety, "list", v.off)
+    if isinstance(v, SMap):
+        if v.keys is None:
+            M.attach_key_order(I, v, "d")
+        return SSeq(v.keys.arr, v.keys.n, v.kty, "list")
     return list(M.concrete_items(I, v))
 
 
